@@ -445,6 +445,22 @@ def recordTags (commit : Bool) (tags : List TagRow) (s : Sess) : Sess :=
   let s1 := s.addAll ((tags.filter (fun t => !hasTag s.view t.tag)).map RowOp.tag)
   if commit then s1.commit else s1
 
+/-! ### `db_retry`: which of the nested decorated calls retries -/
+
+/-- The flag logic of `db_retry.wrapper` for one decorated call: given `_db_retry_active` at entry, returns
+(does THIS call catch OperationalError, roll back and retry?, the flag after the call returned). -/
+def retryWrapper (active : Bool) : Bool × Bool :=
+  if active then (false, true)      -- nested: run the body, leave the flag alone
+  else (true, false)                -- outermost: set the flag, retry, clear it in `finally`
+
+/-- the seeded variant: one try/finally for both cases, the `finally` always clears the flag -/
+def retryWrapperMerged (active : Bool) : Bool × Bool := (!active, false)
+
+/-- the decisions of `n` decorated calls made one after the other INSIDE an operation (flag at the start: `active`) -/
+def nestedRetriers (w : Bool → Bool × Bool) : Nat → Bool → List Bool
+  | 0, _ => []
+  | n + 1, active => (w active).1 :: nestedRetriers w n (w active).2
+
 /-- one evaluated argument: slot, value, upstream call hashes (already a set) -/
 structure ArgSpec where
   slot : Nat
